@@ -97,6 +97,32 @@ class TlcResult:
                 yield ln[len(pref): -2]
 
 
+def run_group(cmd, *, cwd, timeout, env=None):
+    """Run an external tool in its own process group and kill the whole group afterwards, whatever happened.
+    tlapm leaves back-end provers (z3, zenon with -max-time 1d) running as orphans when an obligation is won by another
+    back end or times out; they would burn cores for hours.  Returns (returncode, output); returncode 124 on timeout."""
+    import signal
+    p = subprocess.Popen(cmd, cwd=str(cwd), env=env, stdout=subprocess.PIPE, stderr=subprocess.STDOUT, text=True,
+                         errors="replace", start_new_session=True)
+    try:
+        out, _ = p.communicate(timeout=timeout)
+        rc = p.returncode
+    except subprocess.TimeoutExpired:
+        try:
+            os.killpg(p.pid, signal.SIGKILL)
+        except OSError:
+            pass
+        out, _ = p.communicate()
+        out = (out or "") + "\nTIMEOUT"
+        rc = 124
+    finally:
+        try:
+            os.killpg(p.pid, signal.SIGKILL)
+        except OSError:
+            pass
+    return rc, out
+
+
 def run_tlc(
     module: str,
     cfg: str,
@@ -128,25 +154,7 @@ def run_tlc(
     if env:
         e.update(env)
     t0 = time.time()
-    try:
-        p = subprocess.run(
-            cmd,
-            cwd=str(cwd or SPEC),
-            env=e,
-            stdout=subprocess.PIPE,
-            stderr=subprocess.STDOUT,
-            timeout=timeout,
-            text=True,
-            errors="replace",
-        )
-        out, rc = p.stdout, p.returncode
-    except subprocess.TimeoutExpired as ex:
-        out = (ex.stdout or b"")
-        if isinstance(out, bytes):
-            out = out.decode(errors="replace")
-        out += "\nTIMEOUT"
-        rc = 124
-        subprocess.run(["pkill", "-f", str(meta)], check=False)
+    rc, out = run_group(cmd, cwd=cwd or SPEC, timeout=timeout, env=e)
     wall = time.time() - t0
     (meta / "tlc.out").write_text(out)
     return TlcResult(rc, out, wall)
